@@ -73,6 +73,7 @@ def execute(ctx: RunCtx) -> None:
     if seed_has_period:
         seed.period = T_seed
     prior_generate = ds.flag("e2e.prior_generate_with_other_options", 0.2)
+    prior_loose = prior_generate and ds.flag("e2e.prior_generate_with_loose_corrector", 0.6)
     idx = int(getattr(SynodicState, st).value)
     idxs = [int(getattr(SynodicState, c).value) for c in comps]
     state_arg = getattr(SynodicState, st) if len(comps) == 1 else tuple(getattr(SynodicState, c) for c in comps)
@@ -149,7 +150,9 @@ def execute(ctx: RunCtx) -> None:
         try:
             prior = seed.generate(OrbitContinuationOptions(target=([x_seed[i] - 1000 * mag for i in idxs], [x_seed[i] + 1000 * mag for i in idxs]),
                                                    step=tuple(-v for v in steps_l), max_members=2,
-                                                   max_retries_per_step=0, step_min=1e-10, step_max=1.0, extra_params=extra))
+                                                   max_retries_per_step=0, step_min=1e-10, step_max=1.0,
+                                                   extra_params=(seed.correction_options.merge(**{"base.convergence.tol": 1e-4, "base.convergence.max_attempts": 7})
+                                                                 if prior_loose else extra)))
             ctx.probe("prior_generate")
             prior = (prior, [(o, np.array(o.initial_state, float), o.period) for o in prior.family], int(prior.accepted_count), int(prior.rejected_count))
         except Exception:
@@ -171,7 +174,7 @@ def execute(ctx: RunCtx) -> None:
     fam_objs = list(result.family)
     seq = state["outcomes"]
     log.add("end", len(fam_objs), int(result.accepted_count), int(result.rejected_count), int(result.iterations), seq)
-    cfgd["seed_has_period"], cfgd["prior_generate"] = seed_has_period, prior_generate
+    cfgd["seed_has_period"], cfgd["prior_generate"] = seed_has_period, ("loose corrector" if prior_loose else prior_generate)
     ctx.sig_parts = [cfgd, seq]
     ctx.nontrivial = bool(ctx.faults) or model.stopped in ("target", "max_members")
     ctx.sample = {"leg": "e2e", "config": cfgd, "outcomes": seq, "family_size": len(fam_objs), "stopped_by": model.stopped}
